@@ -84,7 +84,13 @@ def kind_inputs():
     for k, q in KIND_OPS.items():
         arrangements = {"alone": [q], "first": [q, other], "last": [other, q], "with_argument_use": [q, arg], "after_argument_use": [arg, q]}
         sel = q[q.index("{") + 1: q.rindex("}")].strip()
+        # a root-level __typename next to the single field: two response keys, so nothing may be unwrapped
+        arrangements["root_typename_before"] = [q[:q.index("{") + 1] + " __typename " + q[q.index("{") + 1:]]
+        arrangements["root_typename_after"] = [q[:q.rindex("}")] + " __typename }"]
+        arrangements["root_typename_aliased"] = [q[:q.rindex("}")] + " kindOfRoot: __typename }"]
         arrangements["via_root_fragment"] = ["query ViaFrag { ...Part }", f"fragment Part on Query {{ {sel} }}"]
+        arrangements["via_root_fragment_with_typename"] = ["query ViaFrag { ...Part }", f"fragment Part on Query {{ __typename {sel} }}"]
+        arrangements["root_typename_and_root_fragment"] = ["query ViaFrag { __typename ...Part }", f"fragment Part on Query {{ {sel} }}"]
         arrangements["via_root_fragment_then_other"] = ["query ViaFrag { ...Part }", other, f"fragment Part on Query {{ {sel} }}"]
         for an, qs in arrangements.items():
             out[f"kind:{k}:{an}"] = dict(schema=KIND_SCHEMA, queries="\n".join(qs) + "\n", options=KIND_OPTIONS, files={"blob_scalars.py": SCALARS_PY})
